@@ -56,7 +56,10 @@ class TabProblem(Problem):
         # dtype of the reward that `transition` returns (an integer- or float32-typed reward is a legitimate Problem)
         self._rew = jnp.array(np.array(spec["rew"], dtype=np.float64).astype(spec.get("rew_dtype", "float64")))
         self._prob = jnp.array(np.array(spec["prob"], dtype=np.float64))
-        self._init = None if spec.get("init") is None else jnp.array(np.array(spec["init"], dtype=np.float64))
+        # dtype of the estimate that `initial_value` returns: an integer-typed initial estimate (e.g. `return 0`, `return state[0]`) is legitimate
+        self._init_dtype = spec.get("init_dtype", "float64")
+        self._init = None if spec.get("init") is None else jnp.array(np.array(spec["init"], dtype=np.float64).astype(
+            self._init_dtype if self._init_dtype in ("int32", "float32") else "float64"))
         self._initpol = None if spec.get("initpol") is None else jnp.array(self._A[np.array(spec["initpol"])])
         self._prob_as_array = bool(spec.get("prob_as_array", False))
         super().__init__()
@@ -95,7 +98,7 @@ class TabProblem(Problem):
 
     def initial_value(self, state):
         if self._init is None:
-            return 0.0
+            return 0 if self._init_dtype == "pyint0" else 0.0
         s = jnp.clip(jnp.dot(state - self._smins, self._sstr), 0, self._rew.shape[0] - 1)
         return self._init[s]
 
